@@ -95,6 +95,7 @@ let dump_header (h : M.header) =
   pr "HD%s\n" (String.concat "" (List.map (fun e -> " " ^ su e) h.M.h_evdisp));
   pr "HL%s\n" (String.concat "" (List.map (fun e -> " " ^ hexs e) h.M.h_evlab))
 
+let with_inv = ref (try Sys.getenv "EZ_INV" = "1" with Not_found -> false)
 let dump_all (s : M.state) =
   dump_header s.M.hdr;
   let p = s.M.pro in
@@ -104,6 +105,12 @@ let dump_all (s : M.state) =
     List.iteri (fun j q -> pr "P %d %d %s\n" i j (param_body q)) g.M.g_params) s.M.groups;
   pr "D %d\n" (List.length s.M.frames);
   List.iteri (fun i f -> dump_frame f i) s.M.frames;
+  if !with_inv then begin
+    let r = M.inv_report_of s in
+    let b x = if x then "1" else "0" in
+    pr "I %s %s %s %s %s %s %s %s %s %s\n" (b r.M.r_points_hdr) (b r.M.r_points_frames) (b r.M.r_frames_hdr) (b r.M.r_frames_stored)
+      (b r.M.r_subframes) (b r.M.r_analogs_hdr) (b r.M.r_analogs_meas) (b r.M.r_analogs_frames) (b r.M.r_label_counts) (b r.M.r_label_order)
+  end;
   pr "E\n"
 
 (* ---------- frame literals ---------- *)
